@@ -114,13 +114,14 @@ class InitMethod(MethodDescriptor):
         # initialize the attribute.
         for attr, attr_spec in instance_metadata.attrs.items():
             if (
-                not attr_spec.init
-                or attr_spec.owner is not spec_cls
+                attr_spec.owner is not spec_cls
                 or attr == instance_metadata.init_overflow_attr
             ):
                 continue
 
-            value = kwargs.get(attr, MISSING)
+            # (`init=False` attributes are not constructor arguments, but each
+            # instance still gets its own copy of their default.)
+            value = kwargs.get(attr, MISSING) if attr_spec.init else MISSING
             if value is not MISSING:
                 # If owner is not spec-class, we have already looked up and
                 # handled copying.
